@@ -3,6 +3,7 @@ package main
 import (
 	"fmt"
 	ecdsakeygen "github.com/bnb-chain/tss-lib/v2/ecdsa/keygen"
+	eddsakeygen "github.com/bnb-chain/tss-lib/v2/eddsa/keygen"
 	"math/big"
 	"math/rand"
 	"sort"
@@ -286,7 +287,7 @@ func exhaustive(r *Run, pr protoRun, cap int) int {
 }
 
 func runC08(r *Run, rng *rand.Rand, thorough bool) {
-	r.Rule = "routing and channel discipline on every message of every run: each type is emitted with the routing the protocol table prescribes (secret-bearing types to exactly one recipient and not broadcast, all others broadcast to the right committee), survives WireBytes/ParseWireMessage unchanged, does not contain the sender's long-term secrets; copies with the broadcast flag flipped are injected before / instead of / after the genuine message and must never advance a round; WaitingFor is compared with the exact awaited set of the Lean engine (Engine for the four all-to-all protocols, Engine2 for the two resharing protocols) after every delivery; non-trivial = one engine trace"
+	r.Rule = "routing and channel discipline on every message of every run: each type is emitted with the routing the protocol table prescribes (secret-bearing types to exactly one recipient and not broadcast, all others broadcast to the right committee), survives WireBytes/ParseWireMessage unchanged, does not contain the sender's long-term secrets (every numeric field of every outgoing message is compared, as an integer and modulo the group order, with the sender's key share before and after, its Paillier factors and exponents, its ring-Pedersen exponents and primes, the constant term of the polynomial it dealt and the shares it dealt to parties that are not recipients of the message; and every response of the range / Bob / no-small-factor proofs in the messages must be as long as the mask that hides the witness in it); copies with the broadcast flag flipped are injected before / instead of / after the genuine message and must never advance a round; WaitingFor is compared with the exact awaited set of the Lean engine (Engine for the four all-to-all protocols, Engine2 for the two resharing protocols) after every delivery; non-trivial = one engine trace"
 	runs := allToAllRuns(r, rng, thorough)
 	for pi, pr := range runs {
 		nNodes := len(pr.build(rng).Nodes)
@@ -307,6 +308,24 @@ func runC08(r *Run, rng *rand.Rand, thorough bool) {
 			r.Assert(ends == len(net.Nodes) && len(net.Panics) == 0, pr.name+"/flip-run-completes", "run-with-flag-flipped-copies-still-finishes-once", func() string { return fmt.Sprint(st.Name, mode, net.Panics) })
 			engineCheck(r, pr.name, net, pr.name)
 			checkRouting(r, pr.name, net)
+			// contents: no long-term secret of the sender in any outgoing message
+			{
+				cq := tss.S256().Params().N
+				if strings.HasPrefix(pr.name, "eddsa") {
+					cq = tss.Edwards().Params().N
+				}
+				var all []int
+				var ids []*big.Int
+				for i, nd := range net.Nodes {
+					all = append(all, i)
+					ids = append(ids, new(big.Int).SetBytes(nd.ID.Key))
+				}
+				st := ""
+				if strings.HasSuffix(pr.name, "keygen") {
+					st = "KGRound2Message1"
+				}
+				checkNoSecrets(r, pr.name, net, cq, st, all, all, ids)
+			}
 		}
 	}
 	// the two resharing protocols: wrong-channel copies before / instead of / after every delivery
@@ -347,6 +366,23 @@ func runC08(r *Run, rng *rand.Rand, thorough bool) {
 			r.Assert(ends == len(net.Nodes) && len(net.Panics) == 0, proto+"/flip-run-completes", "run-with-flag-flipped-copies-still-finishes-once", func() string { return fmt.Sprint(st.Name, mode, net.Panics) })
 			engine2Check(r, proto, net, nOld, waits)
 			checkRoutingOpt(r, proto, net, false)
+			{
+				cq := tss.S256().Params().N
+				if proto == "eddsa-resharing" {
+					cq = tss.Edwards().Params().N
+				}
+				var olds, news []int
+				var ids []*big.Int
+				for i, nd := range net.Nodes {
+					if i < nOld {
+						olds = append(olds, i)
+					} else {
+						news = append(news, i)
+						ids = append(ids, new(big.Int).SetBytes(nd.ID.Key))
+					}
+				}
+				checkNoSecrets(r, proto, net, cq, "DGRound3Message1", olds, news, ids)
+			}
 		}
 	}
 }
@@ -461,4 +497,148 @@ func runWithFlips(r *Run, n *Net, rng *rand.Rand, st Strategy, mode int, proto s
 			}
 		}
 	}
+}
+
+// checkNoSecrets: no outgoing message of a party contains one of that party's long-term secrets: the ones it held when
+// the run started (key share, Paillier factors and exponents, ring-Pedersen exponents and primes), the key share it
+// ends with, and — in the share-dealing protocols — the polynomial behind the shares it dealt: its constant term, its
+// other coefficients, and every share meant for a party that is not a recipient of the message. Values are compared as
+// integers and, for scalars, modulo the group order.
+func checkNoSecrets(r *Run, proto string, net *Net, q *big.Int, shareType string, dealers, receivers []int, receiverIDs []*big.Int) {
+	type sec struct {
+		name   string
+		v      *big.Int
+		scalar bool
+		notFor int // ≥ 0: a share dealt to that receiver position: legitimate in a message addressed to it alone
+	}
+	secrets := map[int][]sec{}
+	for i, nd := range net.Nodes {
+		for _, s := range nd.Secrets {
+			secrets[i] = append(secrets[i], sec{s.name, s.v, s.name == "x_i" || s.name == "w_i", -1})
+		}
+		for _, e := range nd.Ends {
+			switch k := e.(type) {
+			case *eddsakeygen.LocalPartySaveData:
+				if k.Xi != nil && k.Xi.Sign() != 0 {
+					secrets[i] = append(secrets[i], sec{"saved x_i", k.Xi, true, -1})
+				}
+			case *ecdsakeygen.LocalPartySaveData:
+				if k.Xi != nil && k.Xi.Sign() != 0 {
+					secrets[i] = append(secrets[i], sec{"saved x_i", k.Xi, true, -1})
+				}
+			}
+		}
+	}
+	// the dealt polynomials, reconstructed from the shares on the wire (dealer d → receiver position a)
+	if shareType != "" {
+		for _, d := range dealers {
+			shares := map[int]*big.Int{}
+			for _, m := range net.Nodes[d].Emitted {
+				if shortType(m.Type()) != shareType || len(m.GetTo()) != 1 {
+					continue
+				}
+				refl := m.(tss.ParsedMessage).Content().ProtoReflect()
+				fd := refl.Descriptor().Fields().ByName("share")
+				if fd == nil {
+					continue
+				}
+				for a, ri := range receivers {
+					if string(net.Nodes[ri].ID.Key) == string(m.GetTo()[0].Key) {
+						shares[a] = new(big.Int).SetBytes(refl.Get(fd).Bytes())
+					}
+				}
+			}
+			for a, v := range shares {
+				secrets[d] = append(secrets[d], sec{fmt.Sprintf("share dealt to receiver %d", a), v, true, a})
+			}
+			// constant term by interpolation over the known shares (enough of them in every configuration run here)
+			var xs, ys []*big.Int
+			for a, v := range shares {
+				xs = append(xs, new(big.Int).Mod(receiverIDs[a], q))
+				ys = append(ys, v)
+			}
+			if len(xs) >= 2 {
+				if c0 := lagrangeZero(q, xs, ys); c0 != nil && c0.Sign() != 0 {
+					secrets[d] = append(secrets[d], sec{"constant term of the dealt polynomial (interpolated from the dealt shares)", c0, true, -1})
+				}
+			}
+		}
+	}
+	scanned := 0
+	for i, nd := range net.Nodes {
+		for _, m := range nd.Emitted {
+			content := m.(tss.ParsedMessage).Content()
+			refl := content.ProtoReflect()
+			toPos := -1
+			if len(m.GetTo()) == 1 {
+				for a, ri := range receivers {
+					if string(net.Nodes[ri].ID.Key) == string(m.GetTo()[0].Key) {
+						toPos = a
+					}
+				}
+			}
+			for _, fd := range byteFields(content) {
+				var vals [][]byte
+				if fd.IsList() {
+					l := refl.Get(fd).List()
+					for e := 0; e < l.Len(); e++ {
+						vals = append(vals, l.Get(e).Bytes())
+					}
+				} else {
+					vals = append(vals, refl.Get(fd).Bytes())
+				}
+				for e, b := range vals {
+					v := new(big.Int).SetBytes(b)
+					if v.BitLen() < 64 {
+						continue
+					}
+					scanned++
+					for _, s := range secrets[i] {
+						if s.notFor >= 0 && s.notFor == toPos && string(fd.Name()) == "share" {
+							continue
+						}
+						hit := v.Cmp(s.v) == 0
+						if !hit && s.scalar && v.BitLen() <= 300 {
+							hit = new(big.Int).Mod(v, q).Cmp(new(big.Int).Mod(s.v, q)) == 0
+						}
+						r.Assert(!hit, proto+"/secret-in-message/"+shortType(m.Type())+"."+string(fd.Name()), "no-outgoing-message-contains-a-long-term-secret", func() string {
+							return fmt.Sprintf("%s of %s equals its %s: %s[%d] = %s (%s)", shortType(m.Type()), nd.Name, s.name, fd.Name(), e, eInt(v), emitDesc(m))
+						})
+					}
+				}
+			}
+		}
+	}
+	// the proofs carried by the messages: every response as long as the mask that hides the (long-term) witness in it
+	qb := q.BitLen()
+	for _, nd := range net.Nodes {
+		for _, m := range nd.Emitted {
+			content := m.(tss.ParsedMessage).Content()
+			refl := content.ProtoReflect()
+			for _, fd := range byteFields(content) {
+				if !fd.IsList() {
+					continue
+				}
+				sys := map[string]string{"range_proof_alice": "range", "proof_bob": "bob", "proof_bob_wc": "bobwc", "facProof": "fac"}[string(fd.Name())]
+				if sys == "" {
+					continue
+				}
+				l := refl.Get(fd).List()
+				pf := make([]*big.Int, l.Len())
+				zero := true
+				for e := range pf {
+					pf[e] = new(big.Int).SetBytes(l.Get(e).Bytes())
+					zero = zero && pf[e].BitLen() <= 8
+				}
+				if zero {
+					continue // the placeholder sent when a proof is switched off
+				}
+				d := maskDeficit(sys, pf, qb)
+				r.Assert(d == "", proto+"/response-mask/"+shortType(m.Type())+"."+string(fd.Name()), "proof-responses-are-masked-over-their-full-range", func() string {
+					return fmt.Sprintf("%s of %s: %s", shortType(m.Type()), nd.Name, d)
+				})
+			}
+		}
+	}
+	r.Dist[proto+"/message-values-scanned-for-secrets"] += scanned
 }
